@@ -15,7 +15,7 @@ LEVEL_TEXT = ("Static structural proof of necessary conditions: (R10.1) every in
               "validator's constructor; (R10.3) the temporal rules are registered as TEMPORAL_TAG_ERROR and reachable "
               "from BaseInput.validate. The transition semantics over histories, equal-onset merging and Delay "
               "shifting are NOT decided.")
-LEVEL_EXTRA = 'Added after the seeded evaluation: (R10.4) every Delay-shifted group is appended under an index computed afresh for that group; (R10.5) already-failed rows are skipped by original_index. (R10.6) rows are ordered by onset with a stable sort. (R10.7) an open scope is closed only under an Offset test; (R10.8) a NaN onset leaves the grouping loop before any ordering comparison. (R10.9) the Duration/Delay check skips groups anchored by any temporal key; (R10.10) no join over a de-duplicated collection of row texts.'
+LEVEL_EXTRA = 'Added after the seeded evaluation: (R10.4) every Delay-shifted group is appended under an index computed afresh for that group; (R10.5) already-failed rows are skipped by original_index. (R10.6) rows are ordered by onset with a stable sort. (R10.7) an open scope is closed only under an Offset test; (R10.8) a NaN onset leaves the grouping loop before any ordering comparison. (R10.9) the Duration/Delay check skips groups anchored by any temporal key; (R10.10) no join over a de-duplicated collection of row texts. (R10.11) a tag form compared with a DefTagNames key is short_base_tag.'
 
 ROWS = [{"key": "TemporalErrors." + k, "code": "TEMPORAL_TAG_ERROR"} for k in (
     "OFFSET_BEFORE_ONSET", "INSET_BEFORE_ONSET", "ONSET_SAME_DEFS_ONE_ROW", "TEMPORAL_TAG_NO_TIME",
@@ -274,6 +274,46 @@ def run(ctx):
     # ---------------- R10.10: rows that share a time point are all kept when their texts are joined
     from rules.c20 import join_dedupe_rule
     join_dedupe_rule(ctx, "R10.10", ("hed.models.df_util",), 1)
+
+    # ---------------- R10.11: a tag is recognised as Onset/Offset/Delay/Def… by its short BASE tag (the form without value)
+    ctx.rule("R10.11", "a tag form compared with a DefTagNames key is short_base_tag (never a form that carries the value/extension)")
+    FORMS1011 = {"short_tag", "org_tag", "tag", "long_tag", "org_base_tag", "base_tag", "short_base_tag", "extension", "tag_terms"}
+    n1011 = 0
+    from sa.dataflow import ReachingDefs as _RD1011
+    rds1011 = {}
+    for f in prog.functions.values():
+        for c in walk_no_nested(f.node):
+            if not (isinstance(c, ast.Compare) and len(c.ops) == 1 and isinstance(c.ops[0], (ast.Eq, ast.NotEq, ast.In, ast.NotIn))):
+                continue
+            sides = [c.left, c.comparators[0]]
+            keyside = [x for x in sides if any(isinstance(y, ast.Attribute) and y.attr.endswith("_KEY") and isinstance(y.value, ast.Name)
+                                               and y.value.id == "DefTagNames" for y in ast.walk(x))]
+            if len(keyside) != 1:
+                continue
+            other = sides[0] if keyside[0] is sides[1] else sides[1]
+            while isinstance(other, ast.Call) and isinstance(other.func, ast.Attribute) and other.func.attr in ("casefold", "lower") and not other.args:
+                other = other.func.value
+            if isinstance(other, ast.Name):
+                # a local the form was read into (`short_base = tag.short_base_tag`)
+                rd1011 = rds1011[f] if f in rds1011 else rds1011.setdefault(f, _RD1011(f))
+                forms_ = set()
+                for d_ in rd1011.at(c, other.id) or []:
+                    v_ = d_.value if d_.kind == "assign" else None
+                    while isinstance(v_, ast.Call) and isinstance(v_.func, ast.Attribute) and v_.func.attr in ("casefold", "lower") and not v_.args:
+                        v_ = v_.func.value
+                    forms_.add(v_.attr if isinstance(v_, ast.Attribute) and v_.attr in FORMS1011 else None)
+                if len(forms_) != 1 or None in forms_:
+                    continue
+                other = ast.Attribute(value=ast.Name(id=other.id, ctx=ast.Load()), attr=forms_.pop(), ctx=ast.Load())
+            if not (isinstance(other, ast.Attribute) and other.attr in FORMS1011):
+                continue
+            n1011 += 1
+            ctx.saw(f)
+            ctx.check(other.attr == "short_base_tag", "R10.11", f.qualname, c, loc(f, c),
+                      "`%s` compares the form `%s` with a temporal/definition key: that form includes the value (`Delay/1 s`) or depends "
+                      "on how the tag was written, so a valued or long-form Onset/Offset/Delay/Def tag is not recognised as one"
+                      % (norm(c)[:60], other.attr), desc="%s: key comparison on short_base_tag" % f.short)
+    ctx.floor("R10.11", "tag-form comparisons with DefTagNames keys", n1011, 10)
 
 
 def delay_split_rule(ctx, rule):
